@@ -392,3 +392,26 @@ func storesInto(a ssa.Value) []*ssa.Store {
 	walk(a, 0)
 	return out
 }
+
+// RetVal returns the value a Return yields for result #idx, looking through
+// the defer spill (functions with defers store results into cells, run the
+// defers, reload and return): the value stored last into the cell in the
+// return's own block.
+func RetVal(r *ssa.Return, idx int) ssa.Value {
+	v := r.Results[idx]
+	ld, ok := v.(*ssa.UnOp)
+	if !ok || ld.Op != token.MUL {
+		return v
+	}
+	a, ok := ld.X.(*ssa.Alloc)
+	if !ok {
+		return v
+	}
+	b := r.Block()
+	for i := len(b.Instrs) - 1; i >= 0; i-- {
+		if st, ok := b.Instrs[i].(*ssa.Store); ok && st.Addr == ssa.Value(a) {
+			return st.Val
+		}
+	}
+	return v
+}
